@@ -482,6 +482,10 @@ def run_redrill(unit):
     N = unit['N']
     L, T = (N, 1) if N <= 4 else (N // 2, 2)
     cfg = {'harness': 'redrilling', 'N': N, 'L': L, 'T': T}
+    ramey = bool(unit.get('ramey'))
+    if ramey:
+        # time-varying wellbore temperature drop (Ramey's model switched on): RameyCalc is a stub returning one arbitrary drop per time step
+        cfg['wellbore temperature drop'] = 'time series (Ramey model on; RameyCalc -> arbitrary per-step drops in [0, 50])'
     log = harness.UnitLog(cfg)
     z = lambda n: np.zeros(n)
 
@@ -508,7 +512,7 @@ def run_redrill(unit):
              (WB, 'InjPressureDropsAndPumpingPowerUsingImpedenceModel', inj_imp),
              (WB, 'ProdPressureDropAndPumpingPowerUsingIndexes', prod_idx),
              (WB, 'InjPressureDropAndPumpingPowerUsingIndexes', inj_idx)]
-    names = [f'Tres[{i}]' for i in range(N)] + ['maxdrawdown', 'tempdrop']
+    names = [f'Tres[{i}]' for i in range(N)] + ['maxdrawdown', 'tempdrop'] + ([f'drop[{i}]' for i in range(N)] if ramey else [])
 
     def drive(v, symbolic):
         m = base_model(4, 1, L, T)
@@ -517,8 +521,11 @@ def run_redrill(unit):
         m.reserv.Tresoutput.value = core.as_symarray(Tres) if symbolic else np.array(Tres, dtype=float)
         m.wellbores.maxdrawdown.value = v['maxdrawdown']
         m.wellbores.tempdropprod.value = v['tempdrop']
-        m.wellbores.rameyoptionprod.value = False
+        m.wellbores.rameyoptionprod.value = ramey
         binds = stubs + ([(WB, 'np', NPW)] if symbolic else [])
+        if ramey:
+            drops = [v[f'drop[{i}]'] for i in range(N)]
+            binds = binds + [(WB, 'RameyCalc', lambda *a, **k: (core.as_symarray(list(drops)) if symbolic else np.array(drops, dtype=float)))]
         with shim.shadow(*binds):
             m.wellbores.Calculate(m)
         return m, Tres
@@ -532,7 +539,7 @@ def run_redrill(unit):
         for i in range(N):
             out.append((f'production temperature[{i}] never falls below the drawdown limit (that fraction of its initial value)', _ge(PT[i], lim)))
         # the profile restarts from its beginning at each reported redrilling: first cycle (length idx) tiled
-        P0 = [t - v['tempdrop'] for t in Tres0]
+        P0 = [t - (v[f'drop[{i}]'] if ramey else v['tempdrop']) for i, t in enumerate(Tres0)]
         lim0 = (1 - v['maxdrawdown']) * P0[0]
         # idx = first index whose original value is below the limit (none -> no redrilling)
         cases = []
@@ -560,7 +567,9 @@ def run_redrill(unit):
         v = {f'Tres[{i}]': sym(f'Tres[{i}]', 1, 600) for i in range(N)}
         v['maxdrawdown'] = sym('maxdrawdown', 0, 1, lo_strict=True)
         v['tempdrop'] = sym('tempdrop', 0, 50)
-        core.ctx().add_assume(v['Tres[0]'].t - v['tempdrop'].t > 0)   # a positive initial production temperature
+        for i in range(N if ramey else 0):
+            v[f'drop[{i}]'] = sym(f'drop[{i}]', 0, 50)
+        core.ctx().add_assume(v['Tres[0]'].t - (v['drop[0]'] if ramey else v['tempdrop']).t > 0)   # a positive initial production temperature
         m, Tres0 = drive(v, True)
         return v, obligations(v, m, Tres0)
     zv = {n: z3.Real(n) for n in names}
@@ -600,6 +609,8 @@ def units(tier, seed):
         us.append({'harness': 'history', 'model': model, 'L': 2, 'T': 2, 'passes': 2})
     for N in META['bounds'][tier]['redrilling series length N']:
         us.append({'harness': 'redrilling', 'N': N})
+    for N in META['bounds'][tier]['redrilling series length N'][:2 if tier == 'quick' else 3]:
+        us.append({'harness': 'redrilling', 'N': N, 'ramey': True})
     return us
 
 
